@@ -127,7 +127,7 @@ func ruleSYM(c *Checker) {
 				}
 			}
 			okk = okk && errv != nil && hasFact(mixes[0].Block(), func(f Fact) bool {
-				return factRel(f, isValue(errv), isNilConst) == "=="
+				return factRel(f, isCarrierOf(errv), isNilConst) == "=="
 			})
 			// success returns the plaintext of that decryption
 			allInstrs(dah, func(in ssa.Instruction) {
